@@ -1,11 +1,17 @@
 package main
 
 import (
+	"bufio"
+	"bytes"
+	"context"
 	"encoding/binary"
 	"fmt"
 	"os"
+	"os/exec"
 	"path/filepath"
+	"runtime"
 	"strings"
+	"sync"
 	"time"
 
 	"github.com/google/uuid"
@@ -24,13 +30,20 @@ type c17Ctx struct {
 	seen map[string]bool
 }
 
-func (k *c17Ctx) describe(tag string, data []byte) {
+func (k *c17Ctx) describe(tag string, data []byte) { k.describeAs("c17.txt", tag, data) }
+
+// describeAs: the same under another (base) file name
+func (k *c17Ctx) describeAs(name, tag string, data []byte) {
 	key := string(data)
+	if name != "c17.txt" {
+		key = name + "\x00" + key
+	}
 	if k.seen[key] {
 		return
 	}
 	k.seen[key] = true
-	p := filepath.Join(k.dir, "c17.txt")
+	p := filepath.Join(k.dir, name)
+	defer os.Remove(p)
 	if err := os.WriteFile(p, data, 0o644); err != nil {
 		fmt.Fprintln(os.Stderr, "c17:", err)
 		os.Exit(1)
@@ -192,6 +205,9 @@ func genC17(c *Ctx) {
 	defer os.RemoveAll(dir)
 	k := &c17Ctx{c: c, dir: dir, rows: file.VerifFiletypes(), seen: map[string]bool{}}
 	R := c.R
+	// the displayed time is UTC wherever the program runs: this process (and the CLI runs below)
+	// are put into a zone that is not UTC, so that a conversion through local time shows
+	time.Local = time.FixedZone("C17", 5*3600+1800)
 
 	// ---------- corpus: known witnesses first ----------
 	vectors := []string{
@@ -230,6 +246,8 @@ func genC17(c *Ctx) {
 		k.describe("corpus-braces", []byte(s))
 		c17Parse(c, "corpus", []byte(s))
 	}
+
+	c17CallersCorpus(k)
 
 	// ---------- every version nibble x variant pattern x timestamp class x form x case x white space ----------
 	type tsClass struct {
@@ -486,5 +504,1004 @@ func genC17(c *Ctx) {
 			nsec = int64(R.U64()%1000) * 1000000
 		}
 		c17Fmt(c, sec, nsec)
+	}
+
+	genC17More(k)
+	genC17Callers(k)
+}
+
+// oracle records what every row of the format table other than the UUID row says about data
+// (the UUID row is answered by the model itself).
+func (k *c17Ctx) oracle(p string, data []byte) Sx {
+	base := file.Info{Path: p, Size: int64(len(data))}
+	preds := file.VerifRowPredicates(p, data, int64(len(data)))
+	oracle := SL{}
+	for i := range k.rows {
+		i := i
+		if k.rows[i].Parser == "UUIDValue" || k.rows[i].Sniffer == "IsUUID" {
+			oracle = append(oracle, SL{I(0), ObsErr()})
+			continue
+		}
+		res := guard(func() Sx {
+			inf, err := file.VerifRunRowParser(i, base, data)
+			if err != nil {
+				return ObsErr()
+			}
+			return ObsOk(InfoSx(inf))
+		})
+		oracle = append(oracle, SL{Bool(preds[i][2]), res})
+	}
+	return oracle
+}
+
+// ---------------------------------------------------------------------------------------
+// More single texts for op describe (Inspect + IsUUID + UUIDValue on one text each): every
+// White_Space code point before / after / on both sides of every form, two UUIDs separated by
+// every white space, a UUID inside other text, version 2 and variant corner cases, one bit off
+// Nil and Max; op long: white-space runs of up to a megabyte.
+// ---------------------------------------------------------------------------------------
+func genC17More(k *c17Ctx) {
+	c, R := k.c, k.c.R
+	variants := []byte{0x00, 0x20, 0x40, 0x60, 0x80, 0xa0, 0xc0, 0xe0}
+	rnd := func(ver int) uuid.UUID {
+		return mkUUID(byte(ver), R.U64(), uint16(R.U64()), uint16(R.U64()), variants[R.Intn(len(variants))], R.Bytes(6))
+	}
+
+	// every White_Space code point (and CR LF) x {before, after, both sides} x the four forms
+	for wi, ws := range c17Spaces {
+		u := rnd(1 + (wi % 8))
+		for fi, f := range forms(u) {
+			f = setCase(R, f, R.Intn(3))
+			tag := fmt.Sprintf("ws-%d-%s", wi, c17FormNames[fi])
+			k.describe(tag+"-before", []byte(ws+string(f)))
+			k.describe(tag+"-after", []byte(string(f)+ws))
+			k.describe(tag+"-both", []byte(ws+string(f)+ws))
+			// the same code point twice, and next to another one
+			o := c17Spaces[R.Intn(len(c17Spaces))]
+			k.describe(tag+"-mixed", []byte(ws+o+string(f)+o+ws+ws))
+		}
+	}
+
+	// two UUIDs separated by white space only: not ONE UUID
+	for wi, ws := range c17Spaces {
+		u, v := rnd(4), rnd(7)
+		fu, fv := forms(u), forms(v)
+		fi, gi := wi%4, (wi/4)%4
+		tag := fmt.Sprintf("two-ws-%d", wi)
+		for _, t := range []string{
+			string(fu[fi]) + ws + string(fv[gi]),
+			string(fu[fi]) + ws + string(fu[fi]),
+			ws + string(fu[fi]) + ws + string(fv[fi]) + ws,
+			string(fu[3]) + ws + string(fv[3]),
+		} {
+			k.describe(tag, []byte(t))
+			c17Parse(c, tag, []byte(t))
+		}
+	}
+	{
+		// two bare halves that are a UUID only when joined, three UUIDs, a UUID and a half
+		u := rnd(4)
+		b := string(forms(u)[3])
+		cn := u.String()
+		for _, t := range []string{b[:16] + " " + b[16:], b[:16] + "\n" + b[16:], cn + "\n" + cn + "\n" + cn, cn + " " + cn[:18],
+			cn[:18] + "\n" + cn[18:], b + b, cn + cn, "{" + cn + "}{" + cn + "}", "{" + cn + "} {" + cn + "}", cn + "\t" + b} {
+			k.describe("two-misc", []byte(t))
+			c17Parse(c, "two-misc", []byte(t))
+		}
+	}
+
+	// a UUID inside other text
+	for i := 0; i < 3; i++ {
+		u := rnd(1 + R.Intn(8))
+		for fi, f0 := range forms(u) {
+			f := string(setCase(R, f0, R.Intn(3)))
+			for _, t := range []string{
+				"id=" + f, "id: " + f, "uuid " + f, "UUID: " + f, f + ".txt", f + ",", f + ";", f + ".", "\"" + f + "\",", "{\"id\":\"" + f + "\"}",
+				"The UUID is " + f + "\n", f + " is the id\n", "# " + f, "// " + f, "<id>" + f + "</id>", "- " + f, f + " -", "[" + f + "]",
+				f + "\n--\n", "uuid\n" + f + "\n", f + "\nEOF\n", "\ufeff" + f, f + "\x1a", "0x" + f, f + "/", "/" + f, "urn:uuid:" + f, "{" + f + "}",
+				f + "\x00", "\x00" + f, f + "=", "=" + f, f + "-", "-" + f,
+			} {
+				// ("urn:uuid:" / braces around the canonical form ARE single UUIDs: the spec checker
+				// decides from the text, the tag only steers the distribution)
+				k.describe("inside-"+c17FormNames[fi], []byte(t))
+			}
+		}
+	}
+
+	// version 2 (DCE security) and variant corner cases
+	ids := []uint32{0, 1, 1000, 0x7fffffff, 0x80000000, 0xffffffff}
+	doms := []byte{0, 1, 2, 3, 9, 10, 99, 100, 0x7f, 0x80, 0xfe, 0xff}
+	for _, variant := range variants {
+		for di, dom := range doms {
+			u := mkUUID(2, R.U64(), 0, uint16(R.U64()), variant, R.Bytes(6))
+			binary.BigEndian.PutUint32(u[0:], ids[(di+int(variant>>5))%len(ids)])
+			u[9] = dom
+			if di%3 == 0 {
+				u[8] |= 0x1f // clock_seq_hi bits all set below the variant
+			}
+			c17Lib(c, "v2-corner", u)
+			f := forms(u)[R.Intn(4)]
+			k.describe("v2-corner", []byte(wsRun(R, R.Intn(6))+string(setCase(R, f, R.Intn(3)))+wsRun(R, R.Intn(6))))
+		}
+		for ver := 0; ver < 16; ver++ {
+			// all other fields zero / all ones: only version and variant decide
+			for _, fill := range []byte{0x00, 0xff} {
+				var u uuid.UUID
+				for i := range u {
+					u[i] = fill
+				}
+				u[6] = u[6]&0x0f | byte(ver)<<4
+				u[8] = u[8]&0x1f | variant
+				c17Lib(c, "variant-corner", u)
+				k.describe("variant-corner", forms(u)[R.Intn(4)])
+			}
+		}
+	}
+	// one bit away from Nil and from Max
+	for bit := 0; bit < 128; bit++ {
+		var n, m uuid.UUID
+		for i := range m {
+			m[i] = 0xff
+		}
+		n[bit/8] |= 0x80 >> (bit % 8)
+		m[bit/8] &^= 0x80 >> (bit % 8)
+		c17Lib(c, "near-nil", n)
+		c17Lib(c, "near-max", m)
+		if c.Thorough() || bit%3 == 0 || (bit >= 48 && bit < 72) {
+			k.describe("near-nil", setCase(R, forms(n)[R.Intn(4)], R.Intn(3)))
+			k.describe("near-max", setCase(R, forms(m)[R.Intn(4)], R.Intn(3)))
+		}
+	}
+
+	// ---------- very long white-space runs ----------
+	type lc struct {
+		lead  string
+		nl    int
+		core  string
+		trail string
+		nt    int
+	}
+	w := "017f22e2-79b0-7cc3-98c4-dc0c0c07398f"
+	w4 := "919108f7-52d1-4320-9bac-f847db4148a8"
+	const M = 1 << 20
+	longs := []lc{
+		{" ", M, w, "\n", M},
+		{"\r\n", M / 2, "{" + w + "}", "\u3000", M / 3},
+		{"\u0085", M / 2, "urn:uuid:" + w, "\v", M},
+		{"\f", M, strings.ReplaceAll(w, "-", ""), "\u2003", M / 3},
+		{" ", M, w, " ", 0},
+		{"", 0, w, "\t", M},
+		{" ", M, w + " " + w4, " ", M},       // two UUIDs far inside
+		{" ", M, w + "\n", "x", 1},           // something behind the white space
+		{"\x00", 1, " " + w, " ", M},         // something before it
+		{" ", M, "", "\n", M},                // white space only
+		{"\n", M, w[:35], "\n", 16},          // a near miss
+		{"\u00a0", M / 2, w, "\xa0", 1},      // a lone 0xA0 byte is not U+00A0
+		{" ", 65536, w4, "\u2028", 65536 / 3}, // and some of medium length
+		{"\t", 4096, "{" + w4 + "}", "\r", 4095},
+		{"\u1680", 1000, w4, "\u205f", 1000},
+		{"\v", 2000, w, "\f", 2000},
+		{"\f\v\u0085\u2029", 700, "{" + w4 + "}", "\u00a0\r", 1500},
+	}
+	if c.Thorough() {
+		for i := 0; i < 40; i++ {
+			u := rnd(R.Intn(16))
+			longs = append(longs, lc{c17Spaces[R.Intn(len(c17Spaces))], R.Intn(M), string(forms(u)[R.Intn(4)]), c17Spaces[R.Intn(len(c17Spaces))], R.Intn(M)})
+		}
+	}
+	for _, l := range longs {
+		k.long("ws", l.lead, l.nl, []byte(l.core), l.trail, l.nt)
+	}
+}
+
+func (k *c17Ctx) long(tag string, lead string, nl int, core []byte, trail string, nt int) {
+	data := []byte(strings.Repeat(lead, nl) + string(core) + strings.Repeat(trail, nt))
+	p := filepath.Join(k.dir, "c17long.txt")
+	if err := os.WriteFile(p, data, 0o644); err != nil {
+		fmt.Fprintln(os.Stderr, "c17:", err)
+		os.Exit(1)
+	}
+	defer os.Remove(p)
+	oracle := k.oracle(p, data)
+	isU := guard(func() Sx { return Bool(file.IsUUID(p, data, int64(len(data)))) })
+	val := c17Call1(1, data)
+	insp, _ := inspectObs(p)
+	k.c.Emit("long:"+tag, SL{S(filepath.Base(p)), S(lead), I(nl), SB(core), S(trail), I(nt), oracle}, SL{isU, val, insp})
+}
+
+// ---------------------------------------------------------------------------------------
+// The implementation used the way its callers use it: the text sits in a buffer that the
+// caller keeps, looks at again and refills.  The property is about the function from TEXT to
+// report, so every answer below must be the answer for THAT text, and the buffer must come
+// back untouched.
+//
+//	twice (fn mode pre post text)            -> (r1 buf r2 buf rfresh r1late)
+//	reuse (fn mode backing0 ((off text)...)) -> ((r buf rfresh rlate)...)
+//	conc  (fn shape ((textA textB)...))      -> ((rA rB stable bufB)...)
+//	scan  (fn bufsize (line...))             -> ((token r rfresh rlate)...)
+//	stdin (mode text oracle)                 -> (exit-status stdout)
+//	files (mode ((name text oracle)...))     -> (inspect...)
+//	cli   (((name text oracle)...))          -> (exit-status stdout)
+//
+// fn: 0 IsUUID, 1 UUIDValue, 2 IsUUID then UUIDValue on the same buffer (what file.Inspect does
+// with the UUID row).  mode (twice): 0 window b[lo:hi] of pre+text+post (spare capacity behind
+// the text), 1 b[lo:hi:hi], 2 nil slice, 3 empty non-nil slice; mode (reuse): bit 0 as before,
+// bit 1 = the fresh-copy answer is asked for between the steps instead of after all of them.
+// buf = the whole backing array after the call.
+// ---------------------------------------------------------------------------------------
+
+func c17cp(b []byte) []byte { return append([]byte{}, b...) }
+
+// c17Kept is what a call returned, kept by the caller and looked at again after later calls
+type c17Kept struct {
+	b    bool
+	info *file.Info
+}
+
+func c17ValObs(w []byte, kept *c17Kept) Sx {
+	inf, err := file.UUIDValue(file.Info{}, w)
+	if err != nil {
+		return ObsErr()
+	}
+	kept.info = &inf
+	return ObsOk(InfoSx(inf))
+}
+
+func c17Call(fn int, w []byte) (Sx, *c17Kept) {
+	kept := &c17Kept{}
+	return guard(func() Sx {
+		switch fn {
+		case 0:
+			return ObsOk(Bool(file.IsUUID("", w, int64(len(w)))))
+		case 1:
+			return c17ValObs(w, kept)
+		default:
+			kept.b = file.IsUUID("", w, int64(len(w)))
+			return ObsOk(SL{Bool(kept.b), c17ValObs(w, kept)})
+		}
+	}), kept
+}
+
+// c17Late renders the report a call returned once more, now
+func c17Late(fn int, obs Sx, kept *c17Kept) Sx {
+	if kept == nil || kept.info == nil {
+		return obs
+	}
+	if fn == 1 {
+		return ObsOk(InfoSx(*kept.info))
+	}
+	return ObsOk(SL{Bool(kept.b), ObsOk(InfoSx(*kept.info))})
+}
+
+func c17Call1(fn int, w []byte) Sx { o, _ := c17Call(fn, w); return o }
+
+func c17Window(mode int, backing []byte, lo, hi int) []byte {
+	switch mode {
+	case 1:
+		return backing[lo:hi:hi]
+	case 2:
+		return nil
+	case 3:
+		return []byte{}
+	}
+	return backing[lo:hi]
+}
+
+func c17Twice(c *Ctx, tag string, fn, mode int, pre, text, post []byte) {
+	if mode >= 2 {
+		pre, text, post = nil, nil, nil
+	}
+	backing := append(append(c17cp(pre), text...), post...)
+	w := c17Window(mode, backing, len(pre), len(pre)+len(text))
+	r1, k1 := c17Call(fn, w)
+	b1 := c17cp(backing)
+	r2, _ := c17Call(fn, w)
+	b2 := c17cp(backing)
+	rf := c17Call1(fn, c17cp(text)) // the same text in another buffer comes last
+	c.Emit("twice:"+tag, SL{I(fn), I(mode), SB(c17cp(pre)), SB(c17cp(post)), SB(c17cp(text))},
+		SL{r1, SB(b1), r2, SB(b2), rf, c17Late(fn, r1, k1)})
+}
+
+type c17Step struct {
+	off  int
+	text []byte
+}
+
+func c17Reuse(c *Ctx, tag string, fn, mode int, backing0 []byte, steps []c17Step) {
+	backing := c17cp(backing0)
+	in := SL{}
+	for _, s := range steps {
+		if s.off+len(s.text) > len(backing) {
+			return
+		}
+		in = append(in, SL{I(s.off), SB(c17cp(s.text))})
+	}
+	rs, afters, rfs := make([]Sx, len(steps)), make([]Sx, len(steps)), make([]Sx, len(steps))
+	kept := make([]*c17Kept, len(steps))
+	for i, s := range steps {
+		copy(backing[s.off:], s.text)
+		w := c17Window(mode&1, backing, s.off, s.off+len(s.text))
+		rs[i], kept[i] = c17Call(fn, w)
+		afters[i] = SB(c17cp(backing))
+		if mode&2 != 0 {
+			rfs[i] = c17Call1(fn, c17cp(s.text))
+		}
+	}
+	obs := SL{}
+	for i, s := range steps {
+		if mode&2 == 0 {
+			// asked for after the whole sequence: asking in between would itself overwrite
+			// whatever the implementation remembers about the previous call
+			rfs[i] = c17Call1(fn, c17cp(s.text))
+		}
+		obs = append(obs, SL{rs[i], afters[i], rfs[i], c17Late(fn, rs[i], kept[i])})
+	}
+	c.Emit("reuse:"+tag, SL{I(fn), I(mode), SB(c17cp(backing0)), in}, obs)
+}
+
+// c17Conc: one goroutine per pair of equal-length texts; each refills ITS OWN buffer with the
+// two texts alternately and asks, all goroutines at once.  shape 0: separately allocated
+// buffers, shape 1: adjacent windows of one array (capacity reaching into the neighbours).
+func c17Conc(c *Ctx, tag string, fn, shape int, pairs [][2][]byte) {
+	const iters = 40
+	in := SL{}
+	bufs := make([][]byte, len(pairs))
+	total := 0
+	for _, p := range pairs {
+		if len(p[0]) != len(p[1]) {
+			return
+		}
+		total += len(p[0])
+	}
+	big := make([]byte, total)
+	at := 0
+	for g, p := range pairs {
+		in = append(in, SL{SB(c17cp(p[0])), SB(c17cp(p[1]))})
+		if shape == 1 {
+			bufs[g] = big[at : at+len(p[0])]
+			at += len(p[0])
+		} else {
+			bufs[g] = make([]byte, len(p[0]), len(p[0])+g)
+		}
+	}
+	out := make([]Sx, len(pairs))
+	start := make(chan struct{})
+	var wg sync.WaitGroup
+	for g := range pairs {
+		wg.Add(1)
+		go func(g int) {
+			defer wg.Done()
+			<-start
+			buf := bufs[g]
+			var first [2]Sx
+			stable := true
+			for it := 0; it < iters; it++ {
+				for j := 0; j < 2; j++ {
+					copy(buf, pairs[g][j])
+					r := c17Call1(fn, buf)
+					if !bytes.Equal(buf, pairs[g][j]) {
+						stable = false
+					}
+					if first[j] == nil {
+						first[j] = r
+					} else if stable && r.String() != first[j].String() {
+						stable = false
+						first[j] = r // report the deviating answer
+					}
+				}
+			}
+			out[g] = SL{first[0], first[1], Bool(stable), SB(c17cp(buf))}
+		}(g)
+	}
+	close(start)
+	wg.Wait()
+	c.Emit("conc:"+tag, SL{I(fn), I(shape), in}, SL(out))
+}
+
+// c17Scan: the lines (no LF inside, no CR at the end) are written to a file, LF after each, and
+// read back with a bufio.Scanner; every token (a window into the scanner's buffer) is handed to
+// the implementation as it is.  bufsize 0 = the scanner's default buffer.
+func (k *c17Ctx) scan(tag string, fn, bufsize int, lines [][]byte) {
+	p := filepath.Join(k.dir, "c17list.txt")
+	var content []byte
+	in := SL{}
+	for _, l := range lines {
+		if bytes.IndexByte(l, '\n') >= 0 || (len(l) > 0 && l[len(l)-1] == '\r') || (bufsize > 0 && len(l)+1 > bufsize) {
+			return
+		}
+		content = append(append(content, l...), '\n')
+		in = append(in, SB(c17cp(l)))
+	}
+	if err := os.WriteFile(p, content, 0o644); err != nil {
+		return
+	}
+	defer os.Remove(p)
+	f, err := os.Open(p)
+	if err != nil {
+		return
+	}
+	defer f.Close()
+	sc := bufio.NewScanner(f)
+	if bufsize > 0 {
+		sc.Buffer(make([]byte, bufsize), bufsize)
+	}
+	var toks [][]byte
+	var rs []Sx
+	var kept []*c17Kept
+	for sc.Scan() {
+		line := sc.Bytes()
+		r, kp := c17Call(fn, line)
+		rs, kept = append(rs, r), append(kept, kp)
+		toks = append(toks, c17cp(line))
+	}
+	obs := SL{}
+	for i, t := range toks {
+		obs = append(obs, SL{SB(t), rs[i], c17Call1(fn, c17cp(t)), c17Late(fn, rs[i], kept[i])})
+	}
+	k.c.Emit("scan:"+tag, SL{I(fn), I(bufsize), in}, obs)
+}
+
+// files: texts written to files and inspected one after the other with file.Inspect.
+// mode 0: one path rewritten; 1: the same with a garbage collection before each inspection
+// (the read buffer of the previous file is free to be handed out again); 2: separate paths,
+// all inspected at once by one goroutine each, three times.
+func (k *c17Ctx) files(tag string, mode int, texts [][]byte) {
+	in := SL{}
+	paths := make([]string, len(texts))
+	for i, t := range texts {
+		name := "c17seq.txt"
+		if mode == 2 {
+			name = fmt.Sprintf("c17p%03d%s", i, c17Exts[(i+len(texts))%len(c17Exts)])
+		}
+		paths[i] = filepath.Join(k.dir, name)
+		in = append(in, SL{S(name), SB(c17cp(t)), k.oracle(paths[i], t)})
+	}
+	out := make([]Sx, len(texts))
+	if mode == 2 {
+		for i, t := range texts {
+			if os.WriteFile(paths[i], t, 0o644) != nil {
+				return
+			}
+			defer os.Remove(paths[i])
+		}
+		var wg sync.WaitGroup
+		for i := range texts {
+			wg.Add(1)
+			go func(i int) {
+				defer wg.Done()
+				for it := 0; it < 3; it++ {
+					o, _ := inspectObs(paths[i])
+					if out[i] == nil || o.String() != out[i].String() {
+						out[i] = o
+					}
+				}
+			}(i)
+		}
+		wg.Wait()
+	} else {
+		defer os.Remove(paths[0])
+		for i, t := range texts {
+			if os.WriteFile(paths[i], t, 0o644) != nil {
+				return
+			}
+			if mode == 1 {
+				runtime.GC()
+			}
+			out[i], _ = inspectObs(paths[i])
+		}
+	}
+	k.c.Emit("files:"+tag, SL{I(mode), in}, SL(out))
+}
+
+// cli: the program itself on several files in one run.
+func (k *c17Ctx) cli(tag string, texts [][]byte) {
+	if k.c.Bin == "" {
+		return
+	}
+	dir := filepath.Join(k.dir, "cli")
+	os.MkdirAll(dir, 0o755)
+	defer os.RemoveAll(dir)
+	in := SL{}
+	args := []string{}
+	for i, t := range texts {
+		name := fmt.Sprintf("f%03d%s", i, c17Exts[(i+len(texts))%len(c17Exts)])
+		if os.WriteFile(filepath.Join(dir, name), t, 0o644) != nil {
+			return
+		}
+		in = append(in, SL{S(name), SB(c17cp(t)), k.oracle(name, t)})
+		args = append(args, name)
+	}
+	ctx, cancel := context.WithTimeout(context.Background(), 60*time.Second)
+	defer cancel()
+	cmd := exec.CommandContext(ctx, k.c.Bin, args...)
+	cmd.Dir = dir
+	cmd.Env = append(os.Environ(), "TZ=Asia/Kolkata")
+	var out bytes.Buffer
+	cmd.Stdout = &out
+	code := 0
+	if err := cmd.Run(); err != nil {
+		code = 1
+		if ee, ok := err.(*exec.ExitError); ok {
+			code = ee.ExitCode()
+		}
+	}
+	k.c.Emit("cli:"+tag, SL{in}, SL{I(code), SB(out.Bytes())})
+}
+
+// stdin: the program reading the text from its standard input (mode 0: a pipe, 1: a file)
+func (k *c17Ctx) stdin(tag string, mode int, text []byte) {
+	if k.c.Bin == "" {
+		return
+	}
+	ctx, cancel := context.WithTimeout(context.Background(), 60*time.Second)
+	defer cancel()
+	cmd := exec.CommandContext(ctx, k.c.Bin)
+	cmd.Dir = k.dir
+	cmd.Env = append(os.Environ(), "TZ=America/St_Johns")
+	if mode == 1 {
+		p := filepath.Join(k.dir, "c17stdin.txt")
+		if os.WriteFile(p, text, 0o644) != nil {
+			return
+		}
+		defer os.Remove(p)
+		f, err := os.Open(p)
+		if err != nil {
+			return
+		}
+		defer f.Close()
+		cmd.Stdin = f
+	} else {
+		cmd.Stdin = bytes.NewReader(text)
+	}
+	var out bytes.Buffer
+	cmd.Stdout = &out
+	code := 0
+	if err := cmd.Run(); err != nil {
+		code = 1
+		if ee, ok := err.(*exec.ExitError); ok {
+			code = ee.ExitCode()
+		}
+	}
+	k.c.Emit("stdin:"+tag, SL{I(mode), SB(c17cp(text)), k.oracle("/dev/stdin", text)}, SL{I(code), SB(out.Bytes())})
+}
+
+// file names no row of the format table and no convention says anything about
+var c17Exts = []string{".txt", "", ".uuid", ".UUID", ".id", ".json", ".bin", ".dat", ".TXT", ".log", ".cfg", ".b64", ".pem.txt", ".1"}
+var c17Names = []string{"id", "ID", "uuid", "UUID", "machine-id", "boot_id", "x.uuid", "X.UUID", "a.b.c", ".hidden", "noext", "data.bin", "guid.txt",
+	"README", "x.json", "x.yaml", "x.der.txt", "x.pem.txt", "0", "-", "--", "a b", "\u00e9t\u00e9.txt", "x.jwt.txt", "urn:uuid:", "{x}", "x.TXT", "x.tmp~"}
+
+// ---- texts of a given kind and exact length ----
+// what the kinds really are is decided by the spec checker from the text; the names only steer
+// the distribution
+
+var c17FormLen = []int{36, 38, 45, 32}
+
+const (
+	// 0..7: a UUID of version 1..8
+	c17kV0 = 8 + iota
+	c17kV15
+	c17kNil
+	c17kMax
+	c17kRecase // the previous UUID in another letter case
+	c17kBadChar
+	c17kHyphen
+	c17kBrace
+	c17kJunk
+	c17kNulPad
+	c17kBlank
+	c17kPrefix  // a prefix of the previous text (shorter window at the same place)
+	c17kSibling // the previous text with ONE hexadecimal digit changed (version nibble, variant, first, last, any)
+	c17Kinds
+)
+
+var c17KindNames = []string{"v1", "v2", "v3", "v4", "v5", "v6", "v7", "v8", "v0", "v15", "nil", "max", "recase", "badchar", "hyphen", "brace", "junk", "nulpad", "blank", "prefix", "sibling"}
+
+// white space that may stand inside a line handed to bufio.Scanner (no LF, no CR)
+var c17LineSpaces = []string{" ", "\t", "\v", "\f", "\u0085", "\u00a0", "\u1680", "\u2000", "\u2003", "\u200a", "\u2028", "\u2029", "\u202f", "\u205f", "\u3000"}
+
+func c17Pad(R *Rng, n int, set []string) string {
+	s := ""
+	for n > 0 {
+		u := set[R.Intn(len(set))]
+		if len(u) > n {
+			u = " \t\f\v"[R.Intn(4):][:1]
+		}
+		s += u
+		n -= len(u)
+	}
+	return s
+}
+
+// c17Fit pads core with white space (drawn from set) to exactly L bytes; a core longer than L is cut
+func c17Fit(R *Rng, core []byte, L int, set []string) ([]byte, int) {
+	if len(core) >= L {
+		return c17cp(core[:L]), 0
+	}
+	extra := L - len(core)
+	a := R.Intn(extra + 1)
+	switch R.Intn(4) {
+	case 0:
+		a = 0
+	case 1:
+		a = extra
+	}
+	lead := c17Pad(R, a, set)
+	return []byte(lead + string(core) + c17Pad(R, extra-a, set)), len(lead)
+}
+
+type c17Texts struct {
+	R    *Rng
+	set  []string
+	prev []byte // the previous text
+	pu   *uuid.UUID
+	pf   int // its form
+	poff int // where the form starts in the text
+}
+
+var c17VerPos = []int{14, 15, 23, 12} // the version digit within each form
+var c17VarPos = []int{19, 20, 28, 16} // the variant digit
+var c17FirstPos = []int{0, 1, 9, 0}
+
+// next gives a text of the kind and of exactly L bytes (kind prefix: shorter)
+func (g *c17Texts) next(kind, L int) []byte {
+	R := g.R
+	variants := []byte{0x00, 0x40, 0x80, 0xa0, 0xc0, 0xe0}
+	fi := R.Intn(4)
+	for c17FormLen[fi] > L {
+		fi = 3 // the bare form is the shortest
+	}
+	if g.pu != nil && R.Intn(2) == 0 && c17FormLen[g.pf] <= L {
+		fi = g.pf
+	}
+	mk := func(ver int) uuid.UUID {
+		return mkUUID(byte(ver), R.U64(), uint16(R.U64()), uint16(R.U64()), variants[R.Intn(len(variants))], R.Bytes(6))
+	}
+	var u uuid.UUID
+	isUUID := true
+	var core []byte
+	switch {
+	case kind <= 7:
+		u = mk(kind + 1)
+	case kind == c17kV0:
+		u = mk(0)
+	case kind == c17kV15:
+		u = mk([]int{15, 9, 10, 11, 12, 13, 14}[R.Intn(7)])
+	case kind == c17kNil:
+	case kind == c17kMax:
+		for i := range u {
+			u[i] = 0xff
+		}
+	case kind == c17kRecase:
+		if g.pu != nil {
+			u, fi = *g.pu, g.pf
+			if c17FormLen[fi] > L {
+				fi = 3
+			}
+		} else {
+			u = mk(4)
+		}
+	case kind == c17kPrefix:
+		if len(g.prev) > 1 {
+			m := []int{len(g.prev) - 1, 36, 32, len(g.prev) / 2, 38, 45}[R.Intn(6)]
+			if m >= len(g.prev) {
+				m = len(g.prev) - 1
+			}
+			t := c17cp(g.prev[:m])
+			g.prev, g.pu = t, nil
+			return t
+		}
+		u = mk(4)
+	case kind == c17kSibling:
+		if g.pu != nil && g.poff+c17FormLen[g.pf] <= len(g.prev) && len(g.prev) == L {
+			t := c17cp(g.prev)
+			fl := c17FormLen[g.pf]
+			p := g.poff + []int{c17VerPos[g.pf], c17VerPos[g.pf], c17VarPos[g.pf], c17FirstPos[g.pf], fl - 1 - g.pf%2, c17FirstPos[g.pf] + R.Intn(8)}[R.Intn(6)]
+			d := "0123456789abcdefABCDEF"[R.Intn(22)]
+			for d == t[p] || d|0x20 == t[p]|0x20 {
+				d = "0123456789abcdef"[R.Intn(16)]
+			}
+			t[p] = d
+			g.prev = t
+			core := string(t[g.poff : g.poff+fl])
+			if g.pf == 1 {
+				core = core[1:37]
+			}
+			if nu, err := uuid.Parse(core); err == nil {
+				g.pu = &nu
+			} else {
+				g.pu = nil
+			}
+			return t
+		}
+		u = mk(1 + R.Intn(8))
+	default:
+		isUUID = false
+		u = mk(1 + R.Intn(8))
+	}
+	core = setCase(R, forms(u)[fi], R.Intn(3))
+	if kind == c17kRecase && g.pu != nil {
+		core = setCase(R, forms(u)[fi], 1+R.Intn(2))
+	}
+	switch kind {
+	case c17kBadChar:
+		p := R.Intn(len(core))
+		b := []byte{'g', 'G', 'x', 'O', 'l', '.', ' ', '_', 0x00, 0xff, ':', '/'}[R.Intn(12)]
+		if core[p] == b {
+			b = 'z'
+		}
+		core[p] = b
+	case c17kHyphen:
+		if fi == 3 {
+			core[[]int{8, 12, 16, 20, 0, 31}[R.Intn(6)]] = '-'
+		} else {
+			off := []int{0, 1, 9, 0}[fi]
+			p := off + []int{8, 13, 18, 23}[R.Intn(4)]
+			q := p + 1 - 2*R.Intn(2)
+			core[p], core[q] = core[q], core[p]
+		}
+	case c17kBrace:
+		cn := string(setCase(R, []byte(u.String()), R.Intn(3)))
+		core = []byte([]string{"{" + cn + ")", "(" + cn + "}", "}" + cn + "{", "[" + cn + "]", "{" + cn + "{", "x" + cn + "y", "{" + cn[1:] + "}}", "{{" + cn[:35] + "}"}[R.Intn(8)])
+		if L < 38 {
+			core = []byte("{" + cn[:L-2] + "}")
+		}
+	case c17kJunk:
+		core = make([]byte, L)
+		al := "this line is not a UUID at all, ok?! 0123456789abcdef-{}"
+		for i := range core {
+			core[i] = al[R.Intn(len(al))]
+		}
+	case c17kBlank:
+		core = nil
+	}
+	t, off := c17Fit(R, core, L, g.set)
+	g.poff = off
+	if kind == c17kNulPad {
+		// what looks like padding is not white space
+		ns := []byte{0x00, 0x1f, 0x7f, 0x85, 0xa0, 0xc2}[R.Intn(6)]
+		switch {
+		case len(t) > len(core) && R.Bool():
+			if t[0] == core[0] && len(core) > 0 {
+				t[len(t)-1] = ns
+			} else {
+				t[0] = ns
+			}
+		default:
+			t[len(t)-1] = ns
+		}
+	}
+	g.prev = t
+	if isUUID {
+		uu := u
+		g.pu, g.pf = &uu, fi
+	} else {
+		g.pu = nil
+	}
+	return t
+}
+
+// corpus of the callers' side: a fixed buffer refilled with equally long texts (v4, v7, no UUID,
+// v7) - an implementation that remembered its last answer by the ADDRESS and length of the buffer
+// reported the v7 as the v4, the junk as a UUID and rejected the UUID that followed the junk
+func c17CallersCorpus(k *c17Ctx) {
+	const (
+		v4   = "f47ac10b-58cc-4372-a567-0e02b2c3d479"
+		v7   = "017f22e2-79b0-7cc3-98c4-dc0c0c07398f" // RFC 9562 A.6
+		v1   = "c232ab00-9414-11ec-b3c8-9e6bdeced846" // A.1
+		junk = "this line is not a UUID at all, ok?!"
+	)
+	seq := [][]byte{[]byte(v4), []byte(v7), []byte(junk), []byte(v7), []byte(v1), []byte(strings.ToUpper(v1))}
+	for fn := 0; fn < 3; fn++ {
+		var steps []c17Step
+		for _, t := range seq {
+			steps = append(steps, c17Step{0, t})
+		}
+		c17Reuse(k.c, "corpus", fn, 0, make([]byte, 36), steps)
+		k.scan("corpus", fn, 37, seq)
+	}
+	k.files("corpus", 1, seq)
+}
+
+func genC17Callers(k *c17Ctx) {
+	c, R := k.c, k.c.R
+	scale := 1
+	if c.Thorough() {
+		scale = 12
+	}
+	const (
+		v4 = "f47ac10b-58cc-4372-a567-0e02b2c3d479"
+		v7 = "017f22e2-79b0-7cc3-98c4-dc0c0c07398f"
+	)
+	Ls := []int{32, 36, 38, 45, 40, 47, 48, 64}
+	// ---------- twice ----------
+	pres := []string{"", "{", "urn:uuid:", "0", "abcdef", " ", "\n", "\xe2\x80", "-", "\x00"}
+	posts := []string{"", "}", "0", "0123456789abcdef", " ", "\n", "\x80", "\x85", "-", "\x00", "}}"}
+	for rep := 0; rep < 3*scale; rep++ {
+		for kind := 0; kind < c17Kinds; kind++ {
+			for fn := 0; fn < 3; fn++ {
+				g := &c17Texts{R: R, set: c17Spaces}
+				g.next(R.Intn(8), 36) // something for recase / prefix to refer to
+				L := Ls[R.Intn(len(Ls))]
+				if kind == c17kPrefix {
+					g.next(R.Intn(8), L)
+				}
+				t := g.next(kind, L)
+				c17Twice(c, c17KindNames[kind], fn, R.Intn(2), []byte(pres[R.Intn(len(pres))]), t, []byte(posts[R.Intn(len(posts))]))
+			}
+		}
+		for fn := 0; fn < 3; fn++ {
+			c17Twice(c, "nil-slice", fn, 2, nil, nil, nil)
+			c17Twice(c, "empty-slice", fn, 3, nil, nil, nil)
+			c17Twice(c, "empty-window", fn, R.Intn(2), []byte(v4), nil, []byte(v7))
+		}
+	}
+
+	// ---------- reuse: every transition between kinds ----------
+	for rep := 0; rep < scale; rep++ {
+		for a := 0; a < c17Kinds; a++ {
+			for b := 0; b < c17Kinds; b++ {
+				g := &c17Texts{R: R, set: c17Spaces}
+				L := Ls[R.Intn(len(Ls))]
+				if (a == 10 && b == 11) || (a == 11 && b == 10) {
+					L = c17FormLen[R.Intn(4)] // Nil -> Max, Max -> Nil: exact forms as well
+				}
+				t1 := g.next(a, L)
+				t2 := g.next(b, L)
+				steps := []c17Step{{0, t1}, {0, t2}}
+				off, cap0 := 0, L
+				if R.Intn(3) == 0 {
+					off = R.Intn(9)
+					cap0 = off + L + R.Intn(9)
+					steps = []c17Step{{off, t1}, {off, t2}}
+				}
+				if R.Intn(4) == 0 {
+					steps = append(steps, c17Step{off, g.next(a, L)})
+				}
+				mode := R.Intn(2)
+				if R.Intn(6) == 0 {
+					mode |= 2
+				}
+				c17Reuse(c, c17KindNames[a]+">"+c17KindNames[b], R.Intn(3), mode, R.Bytes(cap0), steps)
+			}
+		}
+	}
+	// random walks: windows at different offsets of one array, texts of different lengths, empty
+	// windows, a text that is a prefix of the previous one
+	for i := 0; i < 120*scale; i++ {
+		g := &c17Texts{R: R, set: c17Spaces}
+		n := 80 + R.Intn(60)
+		backing := R.Bytes(n)
+		if R.Bool() {
+			for j := range backing {
+				backing[j] = "0123456789abcdef-{} \n"[R.Intn(21)]
+			}
+		}
+		L := Ls[R.Intn(len(Ls))]
+		off := R.Intn(8)
+		var steps []c17Step
+		for j := 3 + R.Intn(10); j > 0; j-- {
+			switch R.Intn(8) {
+			case 0:
+				L = Ls[R.Intn(len(Ls))]
+			case 1:
+				off = R.Intn(n - 64)
+			case 2:
+				steps = append(steps, c17Step{off, nil})
+				continue
+			case 3:
+				// the neighbouring window: overlaps the previous text
+				off = (off + 1 + R.Intn(4)) % (n - 64)
+			}
+			kd := R.Intn(c17Kinds)
+			if R.Intn(4) == 0 {
+				kd = c17kSibling
+			}
+			steps = append(steps, c17Step{off, g.next(kd, L)})
+		}
+		mode := R.Intn(2)
+		if R.Intn(6) == 0 {
+			mode |= 2
+		}
+		c17Reuse(c, "walk", R.Intn(3), mode, backing, steps)
+	}
+
+	// ---------- conc ----------
+	for i := 0; i < 6*scale; i++ {
+		L := Ls[R.Intn(len(Ls))]
+		var pairs [][2][]byte
+		for gI := 0; gI < 8; gI++ {
+			g := &c17Texts{R: R, set: c17Spaces}
+			if i%3 == 2 {
+				L = Ls[R.Intn(len(Ls))]
+			}
+			a := g.next(c17PickKind(R), L)
+			b := g.next(c17PickKind(R), L)
+			pairs = append(pairs, [2][]byte{a, b})
+		}
+		c17Conc(c, "mixed", R.Intn(3), i%2, pairs)
+	}
+
+	// ---------- scan: equally long lines of a list read with bufio.Scanner ----------
+	for i := 0; i < 90*scale; i++ {
+		g := &c17Texts{R: R, set: c17LineSpaces}
+		L := Ls[R.Intn(len(Ls))]
+		var lines [][]byte
+		mixed := R.Intn(5) == 0
+		for j := 2 + R.Intn(14); j > 0; j-- {
+			if mixed && R.Intn(3) == 0 {
+				L = Ls[R.Intn(len(Ls))]
+			}
+			kd := R.Intn(c17Kinds)
+			switch R.Intn(6) {
+			case 0, 1:
+				kd = R.Intn(8)
+			case 2:
+				kd = c17kSibling
+			}
+			t := g.next(kd, L)
+			if len(t) == 0 || bytes.IndexByte(t, '\n') >= 0 || t[len(t)-1] == '\r' {
+				continue
+			}
+			lines = append(lines, t)
+		}
+		bs := []int{65, 66, 130, 200, 0, 4096}[R.Intn(6)]
+		if !mixed && R.Intn(2) == 0 {
+			bs = L + 1 + R.Intn(2)
+		}
+		k.scan("lines", R.Intn(3), bs, lines)
+	}
+
+	// ---------- files / cli: the same through file.Inspect and the program ----------
+	for i := 0; i < 24*scale; i++ {
+		g := &c17Texts{R: R, set: c17Spaces}
+		L := Ls[R.Intn(len(Ls))]
+		var texts [][]byte
+		for j := 3 + R.Intn(4); j > 0; j-- {
+			kd := c17PickKind(R)
+			if R.Intn(2) == 0 {
+				kd = R.Intn(8)
+			}
+			texts = append(texts, g.next(kd, L))
+		}
+		k.files("seq", i%3, texts)
+	}
+	for i := 0; i < 8*scale; i++ {
+		g := &c17Texts{R: R, set: c17Spaces}
+		L := Ls[R.Intn(len(Ls))]
+		var texts [][]byte
+		for j := 4 + R.Intn(5); j > 0; j-- {
+			kd := c17PickKind(R)
+			if R.Intn(2) == 0 {
+				kd = R.Intn(8)
+			}
+			texts = append(texts, g.next(kd, L))
+		}
+		k.cli("seq", texts)
+	}
+
+	// ---------- the program reading standard input; other file names ----------
+	for i := 0; i < 16*scale; i++ {
+		g := &c17Texts{R: R, set: c17Spaces}
+		kd := c17PickKind(R)
+		if i%2 == 0 {
+			kd = R.Intn(12)
+		}
+		k.stdin(c17KindNames[kd], i%2, g.next(kd, Ls[R.Intn(len(Ls))]))
+	}
+	for i, name := range c17Names {
+		g := &c17Texts{R: R, set: c17Spaces}
+		k.describeAs(name, "name", g.next(i%12, Ls[R.Intn(len(Ls))]))
+		if i%4 == 0 {
+			k.describeAs(name, "name", g.next(c17kBadChar+R.Intn(5), Ls[R.Intn(len(Ls))]))
+		}
+	}
+}
+
+// a kind that keeps the length asked for
+func c17PickKind(R *Rng) int {
+	for {
+		if kd := R.Intn(c17Kinds); kd != c17kPrefix {
+			return kd
+		}
 	}
 }
